@@ -1,7 +1,7 @@
 (* Dispatcher: one entry point for every executable model function. *)
 From Coq Require Import List ZArith Arith Bool QArith Qcanon.
 From MsmV Require Import Lib.Result Lib.PyList Lib.Sorting Run.Wire.
-From MsmV Require Import Lib.QMat Model.Labels Model.StateTraj Model.Msm Proofs.MsmFacts Model.Coring Proofs.CoringFacts Proofs.CoringWrap Model.Events Model.Similarity Spec.Wrappers Model.Ergodic Model.Peq Model.HS Model.Mcmc Model.CkTest Model.Its.
+From MsmV Require Import Lib.QMat Model.Labels Model.StateTraj Model.Msm Proofs.MsmFacts Model.Coring Proofs.CoringFacts Proofs.CoringWrap Model.Events Model.Similarity Spec.Wrappers Model.Ergodic Model.Peq Model.HS Model.Mcmc Model.CkTest Model.Its Model.TextIO.
 Import ListNotations.
 Local Open Scope Z_scope.
 
@@ -250,6 +250,40 @@ Definition run_its (e : Z) (a : list Z) : option (list Z) :=
     | None => None end
   else None.
 
+Definition dfmt : dec fmt := fun l =>
+  match dZ l with Some (z, r) => Some ((if z =? 0 then F5 else if z =? 1 then F0 else FD), r) | None => None end.
+Definition ddtype : dec (option dtype) := fun l =>
+  match dZ l with
+  | Some (z, r) => Some ((if z =? 0 then None else if z =? 8 then Some Int8 else if z =? 16 then Some Int16
+                          else if z =? 32 then Some Int32 else if z =? 64 then Some Int64 else Some Float64), r)
+  | None => None end.
+Definition dopt {A} (d : dec A) : dec (option A) := fun l =>
+  match dZ l with
+  | Some (z, r) => if z =? 0 then Some (None, r)
+                   else match d r with Some (a, r') => Some (Some a, r') | None => None end
+  | None => None end.
+Definition edtype (d : dtype) : Z := match d with Int8 => 8 | Int16 => 16 | Int32 => 32 | Int64 => 64 | Float64 => 1 end.
+
+Definition run_io (e : Z) (a : list Z) : option (list Z) :=
+  if e =? 1601 then
+    match dpair dfmt (dpair (dlist (dlist dnat)) dnested) a with
+    | Some ((f, (hdr, tbl)), _) => Some (enats (render f hdr tbl))
+    | None => None end
+  else if e =? 1602 then
+    match dpair (dlist dnat) (dpair (dlist dnat) (dpair (dopt (dlist dnat)) (dopt dnat))) a with
+    | Some ((cs, (bytes, (cols, nrows))), _) => Some (eres enested (opentxt cs bytes cols nrows))
+    | None => None end
+  else if e =? 1603 then
+    match dpair (dlist dnat) (dpair (dlist dnat) (dpair (dopt (dlist dnat)) ddtype)) a with
+    | Some ((cs, (bytes, (lims, dt))), _) =>
+        Some (eres (fun p => edtype (fst p) :: enested (snd p)) (openmicrostates cs bytes lims dt))
+    | None => None end
+  else if e =? 1604 then
+    match dpair dnested (dopt (dlist dnat)) a with
+    | Some ((rows, lims), _) => Some (eres (elist enested) (split_limits rows lims))
+    | None => None end
+  else None.
+
 Definition run (req : list Z) : list Z :=
   match req with
   | [] => malformed
@@ -283,6 +317,9 @@ Definition run (req : list Z) : list Z :=
       | None =>
       match run_its e a with
       | Some r => r
+      | None =>
+      match run_io e a with
+      | Some r => r
       | None => malformed
-      end end end end end end end end end end
+      end end end end end end end end end end end
   end.
